@@ -73,13 +73,22 @@ const CONTEXTS = [
   (j) => `for (const i of xs) { out.push(${j}); }\nwhile (c) y = ${j};`,
   (j) => `try { t(${j}); } catch (e) { h(${j}); } finally { z = ${j}; }`,
   (j) => `lbl: { if (q) break lbl; r = ${j}; }\nswitch (k) { case 1: s = ${j}; break; default: s = null; }`,
-  (j) => `const o = { m() { return ${j}; }, get g() { return ${j}; }, p: ${j}, [${j}]: 1 };`,
+  (j) => `const o = { m() { return ${j}; }, get g() { return ${j}; }, p: ${j}, [(<i />)]: 1 };`,
   (j) => `export const h = async function* () { yield ${j}; await (${j}); };`,
   (j) => `const arrow = (a) => (b) => ${j};\nconst t = cond ? ${j} : ${j};`,
   (j) => `/* @jsx h */\nconst x = ${j};`,
   (j) => `import { Fragment, KeepAlive as KA, defineComponent } from 'vue';\nexport const C = defineComponent(() => () => ${j});`,
   (j) => `const _createVNode = 1, _slot = 2, _isSlot = 3, _Fragment = 4, $event = 5;\nconst y = ${j};`,
   (j) => `${j};\n${j};`,
+  // every other position an expression can take: loop heads, tests, discriminants, patterns, class heritage and keys
+  (j) => `for (const { label = (${j}) } of items) use(label);\nfor ([key = (${j})] in rows) use(key);\nfor (const { [(<i />).type]: v = (${j}) } of rows) use(v);`,
+  (j) => `for (let a = (${j}); a; a = null) use(a);\nfor (; (${j}); ) break;\nfor (;; x = ${j}) break;\nfor (const q of [(${j})]) use(q);\nfor (const k in { a: (${j}) }) use(k);`,
+  (j) => `while (${j}) break;\ndo { use(1); } while (!${j});\nswitch (${j}) { case (${j}): break; }\nif (${j}) use(1); else if (${j}) use(2);`,
+  (j) => `function thrower() { if (c) throw (${j}); return typeof (${j}); }\nconst u = [void (${j}), !(${j}), delete (${j}).x, (${j})?.props, new ((${j}).type)(), (${j}).type\`t\`, tag\`a\${(${j})}b\`];`,
+  (j) => `class K2 extends (${j}, Base) { [(<i />).key]() { return (${j}); } static x = ${j}; #p = ${j}; static #q = ${j}; accessor = ${j}; constructor(a = ${j}) { super(${j}); } }`,
+  (j) => `const { a = ${j}, ...rest } = o;\nconst [b = ${j}, , c = ${j}] = arr;\nfunction pat({ p = ${j} }, [q = ${j}], ...r) { return [p, q, r]; }\ntry { use(1); } catch ({ e = ${j} }) { use(e); }\n({ a: z = ${j} } = o);`,
+  (j) => `const o2 = { ...(${j}).props, set s(v = ${j}) { use(v); }, async *g() { yield* [${j}]; }, 'quoted-key': ${j}, 1: ${j} };\nexport default class { m() { return ${j}; } }`,
+  (j) => `"use strict";\nfunction strictFn() { "use strict"; return ${j}; }\nconst strictArrow = () => { "use strict"; return ${j}; };`,
 ];
 
 export function genModule(rng) {
@@ -108,6 +117,7 @@ export const ODD_FORMS = [
   '<input type v-model={x} />', '<input type="" v-model={x} />', '<input type={t} v-model={x} />', '<input {...r} v-model={x} />', '<select v-model={[x, ["m"]]} />', '<textarea v-model_trim={x} />',
   'x = <C>{x}</C>;', 'let x; x = 1; x = <C>{x}{x}</C>;', 'a = b = <C>{a}</C>;', '({ a } = { a: <C>{a}</C> });', 'a += <C>{a}</C>;',
   '<div v-show />', '<div v-show="s" />', '<div vShow={[x, "arg", ["m"]]} />', '<div v-foo:arg_a_b={[x, "other", ["c"]]} />',
+  '<div v-drag_snap-to-grid={h} />', '<input v-model_lazy-trim={x} />', '<div v-track__once={h} />', '<div v-track_2x={h} />', '<div vTrack_2x />', '<A v-track_a-b_c={h} />', '<textarea v-model_1={x} />', '<div v-show_a-b={x} />',
   '<A v-foo:a-b={x} />', '<A v-foo:1={x} />', '<div data-a-b-c="1" aria-x />', '<div a.b="1" />'.replace('a.b', 'ab'),
 ];
 
